@@ -343,6 +343,7 @@ SPECIAL = [
     ('gap-zero-width-bitfield-x86', 'char a; int : 0; char b;'), ('gap-unnamed-bitfield-16-x86', 'char a; int : 16; char b;'), ('gap-unnamed-bitfield-then-int-x86', 'char a; int : 3; int i;'),
     ('gap-long-unnamed-bitfield-x86', 'char a; long : 40; char b;'), ('gap-zero-width-then-short-x86', 'short s; char c; int : 0; short t;'),
     ('zero-length-array-x86', 'int n; int a[0];'), ('zero-length-array-middle-x86', 'char c; long z[0]; char d;'),
+    ('packed-char-int-x86', 'char c; int i;'), ('packed-int-char-x86', 'int i; char c;'), ('packed-char-double-short-x86', 'char c; double d; short s;'), ('packed-only-chars-x86', 'char a, b, c;'),
     ('tail-padding', 'long l; char c;'), ('nested-tail-padding', 'struct { long l; char c; } in; char z;'), ('char-array-17', 'char c[17];'), ('three-floats-and-double', 'float a, b, c; double d;'),
 ]
 
@@ -356,7 +357,7 @@ def special_descriptors(chk):
     try:
         prog = ['#include <stdio.h>\n']
         for i, (name, body) in enumerate(SPECIAL):
-            prog.append('struct sp%d { %s };\n' % (i, body))
+            prog.append('struct %ssp%d { %s };\n' % ('__attribute__((packed)) ' if name.startswith('packed-') else '', i, body))
         prog.append('int main(void) {\n' + ''.join('printf("%%zu %%zu\\n", sizeof(struct sp%d), _Alignof(struct sp%d));\n' % (i, i) for i in range(len(SPECIAL))) + 'return 0; }\n')
         c = os.path.join(d, 'w.c')
         open(c, 'w').write(''.join(prog))
@@ -368,7 +369,7 @@ def special_descriptors(chk):
         shutil.rmtree(d, ignore_errors=True)
     srv = fs.server('fs')
     for i, (name, body) in enumerate(SPECIAL):
-        unit = 'struct sp%d { %s };\nstruct sp%d sp_f%d(long a, struct sp%d s) { (void)a; return s; }\n' % (i, body, i, i, i)
+        unit = 'struct %ssp%d { %s };\nstruct sp%d sp_f%d(long a, struct sp%d s) { (void)a; return s; }\n' % ('__attribute__((packed)) ' if name.startswith('packed-') else '', i, body, i, i, i)
         for t in TARGETS:
             if name.endswith('-x86') and t != 'x86_64-sysv':
                 continue
